@@ -1,6 +1,7 @@
 package main
 
 import (
+	"strconv"
 	"errors"
 	"fmt"
 	"io"
@@ -163,6 +164,9 @@ func genHeader(rng *rand.Rand, keys []string, max int) http.Header {
 }
 
 func runC06(idx int, rng *rand.Rand, tier string) []Case {
+	if idx%20 == 9 {
+		return c06Multi(idx, rng)
+	}
 	tgt := vegeta.Target{
 		Method: []string{"GET", "POST", "PUT", "DELETE", "PATCH", "OPTIONS"}[rng.Intn(6)],
 		URL:    []string{"http://a.example/", "http://b.example:8080/p?q=1", "https://c.example/x/y"}[rng.Intn(3)],
@@ -329,3 +333,84 @@ type pacerAdapter struct{ f vegeta.PacerFunc }
 
 func (p pacerAdapter) Pace(e time.Duration, h uint64) (time.Duration, bool) { return p.f(e, h) }
 func (p pacerAdapter) Rate(time.Duration) float64                        { return 0 }
+
+
+// several hits of one attack, every answer different; the results are kept and looked at only
+// after the last hit: each must still carry its own method, URL, status, body and byte count
+type c06MultiRT struct {
+	mu     sync.Mutex
+	served [][]byte
+	rng    *rand.Rand
+}
+
+func (rt *c06MultiRT) RoundTrip(r *http.Request) (*http.Response, error) {
+	rt.mu.Lock()
+	k := len(rt.served)
+	b := []byte(fmt.Sprintf("reply to hit #%d ", k))
+	pad := make([]byte, rt.rng.Intn(3000))
+	rt.rng.Read(pad)
+	b = append(b, pad...)
+	rt.served = append(rt.served, b)
+	rt.mu.Unlock()
+	return &http.Response{StatusCode: 200 + k%3, Status: "200 OK", Proto: "HTTP/1.1", ProtoMajor: 1, ProtoMinor: 1,
+		Header: http.Header{"X-K": {fmt.Sprint(k)}}, Body: io.NopCloser(bytesReader(b)), ContentLength: int64(len(b)), Request: r}, nil
+}
+
+func bytesReader(b []byte) io.Reader { return &sliceReader{b: b} }
+
+type sliceReader struct {
+	b []byte
+	i int
+}
+
+func (s *sliceReader) Read(p []byte) (int, error) {
+	if s.i >= len(s.b) {
+		return 0, io.EOF
+	}
+	n := copy(p, s.b[s.i:])
+	s.i += n
+	return n, nil
+}
+
+func c06Multi(idx int, rng *rand.Rand) []Case {
+	// URLs that net/url would write differently: the result must carry the target's own text
+	urls := []string{"http://a.example/", "HTTP://A.example/Up", "http://a.example/a b", "http://a.example/x#frag", "http://a.example/caf\u00e9|x", "http://a.example/%7Euser"}
+	methods := []string{"GET", "POST", "PATCH", ""}
+	k := 2 + rng.Intn(5)
+	tgts := make([]vegeta.Target, k)
+	for i := range tgts {
+		tgts[i] = vegeta.Target{Method: methods[rng.Intn(len(methods))], URL: urls[rng.Intn(len(urls))]}
+	}
+	rt := &c06MultiRT{rng: rand.New(rand.NewSource(rng.Int63()))}
+	maxBody := []int64{-1, 40, 1000}[rng.Intn(3)]
+	atk := vegeta.NewAttacker(vegeta.Client(&http.Client{Transport: rt}), vegeta.MaxBody(maxBody), vegeta.Workers(1), vegeta.MaxWorkers(1))
+	hits := uint64(k)
+	pacer := vegeta.PacerFunc(func(_ time.Duration, h uint64) (time.Duration, bool) { return 0, h >= hits })
+	var rs []*vegeta.Result
+	for r := range atk.Attack(vegeta.NewStaticTargeter(tgts...), pacerAdapter{pacer}, 0, "multi") {
+		rs = append(rs, r)
+	}
+	sort.Slice(rs, func(i, j int) bool { return rs[i].Seq < rs[j].Seq })
+	var c Case
+	w := &c.W
+	w.Z(2)
+	w.Z(maxBody)
+	w.I(len(rs))
+	rt.mu.Lock()
+	for i, r := range rs {
+		t := tgts[i%k]
+		w.Str(t.Method); w.Str(t.URL)
+		// which answer this hit got: the transport numbers them in a response header
+		if ki, err := strconv.Atoi(r.Headers.Get("X-K")); err == nil && ki < len(rt.served) {
+			w.Bytes(rt.served[ki])
+		} else {
+			w.Bytes(nil) // no exchange took place (the request could not be built): nothing was captured
+		}
+		w.U(r.Seq); w.Str(r.Method); w.Str(r.URL); w.I(int(r.Code)); w.Bytes(r.Body); w.U(r.BytesIn)
+	}
+	rt.mu.Unlock()
+	c.Tag = "multi;nt"
+	c.Dist = fmt.Sprintf("multi/hits%d/maxbody%d", k, maxBody)
+	c.Sample = map[string]interface{}{"hits": k, "max_body": maxBody, "first_target": tgts[0].Method + " " + tgts[0].URL}
+	return []Case{c}
+}
